@@ -729,4 +729,8 @@ theorem sparse_ofGraph (d : Bool) (N : Nat) (a : Nat → Nat → Bool) (w ea) :
   have hj' : j < N := hj
   rw [ofGraph_at]; simp [hi', hj']
 
+/-- reshuffle bounded quantifiers so that `decide` can evaluate them -/
+theorem forall_lt_lt {N : Nat} {P : Nat → Nat → Prop} (h : ∀ i, i < N → ∀ j, j < N → P i j) :
+    ∀ i j, i < N → j < N → P i j := fun i j hi hj => h i hi j hj
+
 end Pyunicorn.Repr
